@@ -63,3 +63,17 @@ impl LuaIndex for LuaGlobalIndex {
         self.global_decl.clear();
     }
 }
+
+#[cfg(emmyluals_emmylua_analyzer_rust_verif)]
+impl LuaGlobalIndex {
+    /// Verification hook: entry counts of every container of this index.
+    pub fn verif_sizes(&self) -> Vec<(&'static str, usize)> {
+        vec![
+            ("global_decl", self.global_decl.len()),
+            (
+                "global_decl/ids",
+                self.global_decl.values().map(|v| v.len()).sum(),
+            ),
+        ]
+    }
+}
